@@ -1415,9 +1415,14 @@ class BurstTr(Tr):
 
     def __init__(self, enumvals):
         Tr.__init__(self, "submit_burst_check", enumvals, job_names=(), params=[])
+        self.aliases = set()      # const pointer locals of the loop body initialised with jobs[i]
+        self.tname = "t"          # the two-element array receiving the expected suite id
 
     # --- special lvalues / calls of the burst path
     def is_jobs_i(self, n):
+        m = strip_casts(n)
+        if m.get("kind") == "DeclRefExpr" and m["referencedDecl"]["name"] in self.aliases:
+            return True
         return is_jobs_i(n)
 
     def read_lvalue(self, lv, env):
@@ -1432,12 +1437,14 @@ class BurstTr(Tr):
                 return V("i", ctype(lv))
             if nm == "job_offset":
                 return V("(*job_offset*)", ctype(lv), prov=("job_offset",))
+            if nm in self.aliases and env.get("__in_loop__"):
+                return V("(*jobs[i]*)", ctype(lv), prov=("entry",))
         if k == "ArraySubscriptExpr":
             if self.is_jobs_i(lv) and env.get("__in_loop__"):
                 return V("(*jobs[i]*)", ctype(lv), prov=("entry",))
             b = strip_casts(lv["inner"][0])
             iv = self.val(lv["inner"][1], env)
-            if b.get("kind") == "DeclRefExpr" and b["referencedDecl"]["name"] == "t" and iv.const in (0, 1) and env.get("__t__"):
+            if b.get("kind") == "DeclRefExpr" and b["referencedDecl"]["name"] == self.tname and iv.const in (0, 1) and env.get("__t__"):
                 return V(env["__t__"][iv.const], ctype(lv))
             if b.get("kind") == "MemberExpr" and b.get("name") == "suite_id" and b.get("isArrow") and \
                self.is_jobs_i(b["inner"][0]) and iv.const in (0, 1):
@@ -1607,11 +1614,17 @@ class BurstTr(Tr):
                 continue
             if k == "DeclStmt":
                 d = st["inner"][0]
-                if d.get("name") != "t" or "[2]" not in d["type"]["qualType"]:
+                init = [c for c in d.get("inner", []) if c.get("kind") != "FullComment"]
+                if len(st["inner"]) == 1 and init and is_jobs_i(init[0]) and "*" in d["type"]["qualType"] and \
+                        "const" in d["type"]["qualType"].split("*")[-1]:
+                    self.aliases.add(d["name"])       # IMB_JOB *const x = jobs[i];
+                    continue
+                if len(st["inner"]) != 1 or "[2]" not in d["type"]["qualType"] or init:
                     fail(st, "unexpected declaration in the validation loop")
+                self.tname = d["name"]
                 continue
             if k == "CallExpr" and self.callee_name(st) == "set_cipher_suite_id":
-                if not self.is_jobs_i(st["inner"][1]) or strip_casts(st["inner"][2]).get("referencedDecl", {}).get("name") != "t":
+                if not self.is_jobs_i(st["inner"][1]) or strip_casts(st["inner"][2]).get("referencedDecl", {}).get("name") != self.tname:
                     fail(st, "set_cipher_suite_id not applied to (jobs[i], t)")
                 lenv["__t__"] = ("t0", "t1")
                 steps.append(("suite",))
@@ -1660,7 +1673,24 @@ def translate_tu(tu_rel, enumvals):
     if len(cj) != 1 or len(cb) != 1:
         raise T2Error("expected one is_job_invalid() call in each submit path (found %d, %d)" % (len(cj), len(cb)))
     aj = call_site_args(CallTr(enumvals, is_local_job), cj[0], is_local_job)
-    ab = call_site_args(CallTr(enumvals, is_jobs_i), cb[0], is_jobs_i)
+    # const pointer locals initialised with jobs[i] stand for jobs[i]
+    al = set()
+
+    def scan_alias(n):
+        if n.get("kind") == "VarDecl" and "*" in n.get("type", {}).get("qualType", "") and \
+                "const" in n["type"]["qualType"].split("*")[-1]:
+            init = [c for c in n.get("inner", []) if c.get("kind") != "FullComment"]
+            if len(init) == 1 and is_jobs_i(init[0]):
+                al.add(n["name"])
+        for c in n.get("inner", []):
+            if isinstance(c, dict):
+                scan_alias(c)
+    scan_alias(sb)
+
+    def is_entry(n):
+        m = strip_casts(n)
+        return is_jobs_i(n) or (m.get("kind") == "DeclRefExpr" and m["referencedDecl"]["name"] in al)
+    ab = call_site_args(CallTr(enumvals, is_entry), cb[0], is_entry)
     if aj != ab:
         raise T2Error("job-API and burst call sites pass different arguments: %s vs %s" % (aj, ab))
     out.append("(* actual arguments at the call sites in submit_job_and_check() (mb_mgr_job_api.h) and\n"
@@ -1685,7 +1715,7 @@ def translate_tu(tu_rel, enumvals):
     out += ExprFnTr("set_cipher_suite_id", enumvals).out_params(fs, "id", 2)
     bt = BurstTr(enumvals)
     out += bt.translate(sb)
-    ab2 = call_site_args(CallTr(enumvals, is_jobs_i), bt.invalid_call, is_jobs_i)
+    ab2 = call_site_args(CallTr(enumvals, bt.is_jobs_i), bt.invalid_call, bt.is_jobs_i)
     if ab2 != aj:
         raise T2Error("is_job_invalid() inside the burst validation loop is called with different arguments")
     stats["layout_paths"] = len(t2.used_paths)
